@@ -116,8 +116,42 @@ def build_impl(spec: dict):
             if node.get('id') or node.get('meas') or node.get('cons'):
                 raise core.MachineryError('helper constructors take no identifier / measurements / constraints')
             node['_pt'] = _build_via(node, via)
-    go(spec)
-    return ptgen.build(spec)
+    # nodes marked `cons_as` / `meas_as` hand their constraints / measurement declarations over as another kind of
+    # iterable (`parameter_constraints: Iterable[ConstraintLike]`): tuple, set, one-shot generator, `map` object
+    orig_kw = ptgen._kw
+
+    def kw(node, *names):
+        out = orig_kw(node, *names)
+        if 'parameter_constraints' in out and node.get('cons_as'):
+            out['parameter_constraints'] = as_iterable(out['parameter_constraints'], node['cons_as'])
+        if 'measurements' in out and node.get('meas_as'):
+            out['measurements'] = as_iterable(out['measurements'], node['meas_as'])
+        return out
+    ptgen._kw = kw
+    try:
+        go(spec)
+        return ptgen.build(spec)
+    finally:
+        ptgen._kw = orig_kw
+
+
+ITERABLE_KINDS = ('list', 'tuple', 'set', 'gen', 'map', 'iter', 'dictkeys')
+
+
+def as_iterable(items: list, how: str):
+    if how == 'tuple':
+        return tuple(items)
+    if how == 'set':
+        return set(items) if all(isinstance(x, str) for x in items) else tuple(items)
+    if how == 'gen':
+        return (x for x in items)
+    if how == 'map':
+        return map(lambda x: x, items)
+    if how == 'iter':
+        return iter(list(items))
+    if how == 'dictkeys':
+        return dict.fromkeys(items).keys() if all(isinstance(x, (str, tuple)) for x in items) else list(items)
+    return list(items)
 
 
 def apply_helpers(rng: random.Random, spec: dict, p: float, wrap_p: float) -> None:
@@ -288,7 +322,7 @@ def node_at(spec: dict, path: Tuple) -> dict:
     return n
 
 
-def decorate(rng: random.Random, tree: dict, density: float = 0.55, self_range_p: float = 0.3) -> List[dict]:
+def decorate(rng: random.Random, tree: dict, density: float = 0.55, self_range_p: float = 0.3, iter_p: float = 0.4) -> List[dict]:
     """add phase-1 constraints `lhs <= K0` (K0 unique, huge) to the constrainable nodes of tree['spec'];
     returns the constraint records; tree['values'] gains the new top level names"""
     spec, values = tree['spec'], tree['values']
@@ -385,6 +419,9 @@ def decorate(rng: random.Random, tree: dict, density: float = 0.55, self_range_p
             node['cons'].append('%s <= %d' % (lhs, k0))
             recs.append({'path': [list(s) for s in path], 'pos': len(node['cons']) - 1, 'lhs': lhs, 'k0': k0,
                          'kind': node['k']})
+    for _path, node, _names, _maps in nodes:
+        if node.get('cons') and rng.random() < iter_p:
+            node['cons_as'] = rng.choice(ITERABLE_KINDS[1:])
     tree['counter'] = counter[0]
     return recs
 
@@ -830,6 +867,8 @@ def assess(ctx: core.Ctx, rec: dict, count=True) -> Tuple[List[dict], List[str],
         if any(n.get('self_range') for n in ptgen.spec_nodes(rec['case']['spec'])) or \
                 rec['case'].get('label', '').startswith('self-range'):
             ctx.count('with-loop-range-naming-its-own-index')
+        if any(n.get('cons_as') in ('gen', 'map', 'iter') for n in ptgen.spec_nodes(rec['case']['spec'])):
+            ctx.count('with-constraints-given-as-one-shot-iterable')
         if any(n.get('via') for n in ptgen.spec_nodes(rec['case']['spec'])):
             ctx.count('with-node-built-by-a-helper-constructor')
         if any(n.get('remap') for n in ptgen.spec_nodes(rec['case']['spec'])) or \
@@ -1062,6 +1101,7 @@ def exhaustive_cases() -> List[dict]:
     out.extend(nested_map_cases())
     out.extend(index_remap_cases())
     out.extend(helper_cases())
+    out.extend(iterable_cases())
     return out
 
 
@@ -1100,6 +1140,30 @@ NESTED_OUTER = {'chain': [['x1', 'x2'], ['x2', 'c']], 'rchain': [['x2', 'x1'], [
 
 def _eval_simple(expr: str, env: Dict[str, F]) -> F:
     return F(eval(expr, {'__builtins__': {}}, dict(env)))      # noqa: S307 -- own literals: names, +, numbers
+
+
+def iterable_cases() -> List[dict]:
+    """every constrainable node kind with its constraints handed over as list / tuple / set / generator expression / `map`
+    object / iterator / dict keys view (`Iterable[ConstraintLike]`; the last four can be consumed only once or are no
+    sequences), two constraints per node (one over a constraint-only parameter), satisfied on / violated at the boundary;
+    once with exactly the declared names, once with all names"""
+    out = []
+    eighth = F(1, 8)
+    pool = {'a': 0.25, 'x': 0.5, 'y': -0.5}
+    for kind in CONSTRAINABLE:
+        for how in ITERABLE_KINDS:
+            for rel, off in (('<=', F(0)), ('<', F(0))):
+                cons = ['a <= 0.25', 'x %s %s' % (rel, ptgen.fstr(F(1, 2) + off))]
+                node = _node(kind, cons)
+                node['cons_as'] = how
+                if kind == 'map':
+                    node['id'] = 'named'
+                label = 'iterable/%s/%s/%s/%s' % (kind, how, rel, off)
+                out.append({'spec': node, 'params': {}, 'param_pool': pool, 'cm': {}, 'mm': None, 'stream': 'exhaustive',
+                            'label': label + '/declared'})
+                out.append({'spec': copy.deepcopy(node), 'params': {'a': 0.25, 'x': 0.5}, 'cm': {}, 'mm': None,
+                            'stream': 'exhaustive', 'label': label + '/all'})
+    return out
 
 
 def helper_cases() -> List[dict]:
@@ -1273,6 +1337,118 @@ def nested_map_cases() -> List[dict]:
 
 
 # ------------------------------------------------------------------------------------------------
+# array valued parameters with constraints on the array as a whole (implementation + harness-side judge: the Lean
+# expression model has scalars only)
+# ------------------------------------------------------------------------------------------------
+
+ARRAY_KINDS = ('point', 'table', 'for', 'rep', 'seq', 'map', 'amulti', 'for-in-map')
+ARRAY_FORMS = ('arr < K', 'arr <= K', 'arr >= K', 'arr > K', 'Abs(arr) <= K', 'arr + x <= K', '2*arr < K', 'K > arr')
+
+
+def array_recipe(rng) -> dict:
+    kind = rng.choice(ARRAY_KINDS)
+    n = 2 if kind == 'point' else rng.choice([2, 3, 3, 4])
+    arr = [F(rng.randrange(-12, 13), 8) for _ in range(n)]
+    return {'kind': kind, 'form': rng.choice(ARRAY_FORMS), 'arr': [str(a) for a in arr], 'off': rng.choice(['-1/8', '0', '0', '1/8']),
+            'x': str(F(rng.randrange(-8, 9), 8)), 'as': rng.choice(['ndarray', 'ndarray', 'list', 'tuple']),
+            'extra': rng.random() < 0.3}
+
+
+def array_expected(rc: dict) -> Tuple[str, bool]:
+    """(constraint text, does EVERY element satisfy it) -- a constraint over an array holds iff it holds element-wise
+    for all elements (`ParameterConstraint.is_fulfilled` is `numpy.all(..)`)"""
+    arr = [F(a) for a in rc['arr']]
+    x, off, form = F(rc['x']), F(rc['off']), rc['form']
+    lhs = {'arr < K': arr, 'arr <= K': arr, 'arr >= K': arr, 'arr > K': arr, 'Abs(arr) <= K': [abs(a) for a in arr],
+           'arr + x <= K': [a + x for a in arr], '2*arr < K': [2 * a for a in arr], 'K > arr': arr}[form]
+    lower = form in ('arr >= K', 'arr > K')
+    K = (min(lhs) if lower else max(lhs)) + off
+    rel = {'arr < K': lambda v: v < K, 'arr <= K': lambda v: v <= K, 'arr >= K': lambda v: v >= K, 'arr > K': lambda v: v > K,
+           'Abs(arr) <= K': lambda v: v <= K, 'arr + x <= K': lambda v: v <= K, '2*arr < K': lambda v: v < K,
+           'K > arr': lambda v: K > v}[form]
+    return form.replace('K', ptgen.fstr(K)), all(rel(v) for v in lhs)
+
+
+def array_build(rc: dict, con: str):
+    """(template, name of the array parameter the user supplies)"""
+    import qupulse.pulses as qp
+    k = rc['kind']
+    step = lambda cons=None: qp.TablePT({'X': [(0, 'arr[i]'), ('d', 'arr[i]')]}, parameter_constraints=cons)  # noqa
+    loop = lambda cons=None: qp.ForLoopPT(step(), 'i', 'n', parameter_constraints=cons)  # noqa
+    if k == 'point':
+        return qp.PointPT([(0, 'v0'), ('d', 'arr', 'linear')], ('X', 'Y'), parameter_constraints=[con]), 'arr'
+    if k == 'table':
+        return qp.TablePT({'X': [(0, 'arr[0]'), ('d', 'arr[1]')]}, parameter_constraints=[con]), 'arr'
+    if k == 'for':
+        return loop([con]), 'arr'
+    if k == 'rep':
+        return qp.RepetitionPT(loop(), 'r', parameter_constraints=[con]), 'arr'
+    if k == 'seq':
+        return qp.SequencePT(loop(), loop(), parameter_constraints=[con]), 'arr'
+    if k == 'map':
+        return qp.MappingPT(loop(), parameter_mapping={'arr': 's*raw'}, parameter_constraints=[con.replace('arr', 'raw')],
+                            allow_partial_parameter_mapping=True), 'raw'
+    if k == 'for-in-map':
+        # the constrained node sits BELOW a mapping that produces the array
+        return qp.MappingPT(loop([con]), parameter_mapping={'arr': 'raw + 0'}, allow_partial_parameter_mapping=True), 'raw'
+    tab = qp.TablePT({'X': [(0, 'arr[0]'), ('d', 'arr[1]')]})
+    return qp.AtomicMultiChannelPT(tab, qp.TablePT({'Y': [(0, 0), ('d', 1)]}), parameter_constraints=[con]), 'arr'
+
+
+def array_check(rc: dict) -> List[str]:
+    import numpy as np
+    con, sat = array_expected(rc)
+    pt, name = array_build(rc, con)
+    vals = [float(F(a)) for a in rc['arr']]
+    arr = np.array(vals) if rc['as'] == 'ndarray' else (list(vals) if rc['as'] == 'list' else tuple(vals))
+    pool = {name: arr, 'x': float(F(rc['x'])), 'd': 2, 'n': len(vals), 'r': 2, 's': 1, 'v0': 0.25}
+    declared = set(pt.parameter_names)
+    out = []
+    if not declared <= set(pool):
+        return ['parameter_names %s contains names the template never uses' % sorted(declared)]
+    if name not in declared:
+        out.append('the array parameter %s of the constraint %s is not in parameter_names %s' % (name, con, sorted(declared)))
+    params = {k: v for k, v in pool.items() if k in declared or k == name}
+    if rc['extra']:
+        params['unused'] = np.array([5., 6.])
+    try:
+        prog = pt.create_program(parameters=params)
+        res = 'a program' if prog is not None else 'nothing'
+    except Exception as exc:  # noqa
+        cls = core.classify_exception(exc)
+        res = 'ParameterConstraintViolation' if cls == 'constraint_violation' else 'error %s (%s)' % (cls, str(exc)[:80])
+    want = 'a program' if sat else 'ParameterConstraintViolation'
+    if res != want:
+        out.append('instantiation gives %s although %s element of %s = %s satisfies the constraint %s'
+                   % (res, 'every' if sat else 'not every', name, vals, con.replace('arr', name)))
+    return out
+
+
+def array_report(ctx, rc: dict, count=True) -> bool:
+    import warnings
+    warnings.filterwarnings('ignore')
+    fs = array_check(rc)
+    if count:
+        ctx.case('array:' + repr(sorted(rc.items())), nontrivial=True)
+        ctx.count('array-stream')
+        ctx.count('array:kind=' + rc['kind'])
+    if fs:
+        ctx.violation('array valued parameter: %s [%s template, values given as %s]' % (fs[0], rc['kind'], rc['as']),
+                      {'kind': 'c03-array', 'recipe': rc})
+        return False
+    return True
+
+
+def array_stream(ctx, n: int):
+    rng = ctx.fork('arrays')
+    bad = 0
+    for _ in range(n):
+        if not array_report(ctx, array_recipe(rng)):
+            bad += 1
+    ctx.disagreements += bad
+
+
+# ------------------------------------------------------------------------------------------------
 # known findings
 # ------------------------------------------------------------------------------------------------
 
@@ -1311,7 +1487,11 @@ def run(ctx: core.Ctx):
                 'the iterations a mapping that re-defines the loop index name in terms of itself, followed by repetition / '
                 'sequence levels; 30 % of the undecorated composite nodes are built through the helper constructors '
                 '(with_repetition / **, concatenate / @, with_mapping, with_iteration, with_parallel_channels, with_time_reversal) and '
-                '35 % of the repetitions are repeated once more through with_repetition / ** (Lean sees the explicit nesting); plus the '
+                '35 % of the repetitions are repeated once more through with_repetition / ** (Lean sees the explicit nesting); 40 % of '
+                'the constrained nodes get their constraints as tuple / set / generator / map object / iterator / dict keys view; array '
+                'stream (implementation + harness-side judge "all elements", no Lean line): 8 node kinds with a constraint on an '
+                'array valued parameter as a whole (8 relation forms, constant below / on / above the extreme element, values as '
+                'ndarray / list / tuple); plus the '
                 'exhaustive space below. '
                 'Non-trivial = at least one constraint is visible and the tree has more than one node; distinct by request line')
     ctx.assumptions = [
@@ -1338,7 +1518,8 @@ def run(ctx: core.Ctx):
                                  'handed to the helper constructors (a constrained RepetitionPT plain / named / with measurements '
                                  'repeated through with_repetition / ** in 5 chains; constrained sequence / mapping / iteration / '
                                  'table below @, concatenate, with_mapping, with_iteration, with_parallel_channels, '
-                                 'with_time_reversal) with the Lean side on the explicit nesting: %d cases' % len(ex))
+                                 'with_time_reversal) with the Lean side on the explicit nesting, plus every constrainable node kind with its '
+                                 'constraints given as list / tuple / set / generator / map object / iterator / dict keys: %d cases' % len(ex))
     recs = [r for r in _pool_map(ctx, evaluate_case, ex) if r is not None]
     # random trees: phase A (draw + probe), phase B (streams)
     depth = 4 if ctx.quick else 5
@@ -1364,6 +1545,7 @@ def run(ctx: core.Ctx):
         if viols or diffs or known:
             ctx.disagreements += 1 if viols else 0
             report(ctx, r, viols, diffs, known)
+    array_stream(ctx, ctx.n(200, 4000))
     replay_known(ctx)
 
 
@@ -1380,6 +1562,8 @@ def _streams_safe(desc):
 
 
 def replay(ctx: core.Ctx, rec: dict, from_corpus: bool = False) -> bool:
+    if rec.get('kind') == 'c03-array':
+        return array_report(ctx, rec['recipe'], count=from_corpus)
     case = rec.get('case')
     if case is None:
         return True
